@@ -212,7 +212,9 @@ func cmdLayoutSweep(args []string) error {
 			if err := emit("canonical", "", " ", "\n", false); err != nil {
 				return err
 			}
-			seps := []string{"\n", "\t", "  ", " /* c */ ", "\n// c\n", "\r\n", " /**/ "}
+			seps := []string{"\n", "\t", "  ", " /* c */ ", "\n// c\n", "\r\n", " /**/ ",
+				// the shapes of a block comment: runs of stars of either parity before the closing slash, stars and slashes inside
+				" /** c **/ ", " /***/ ", " /****/ ", " /* a * b ** c *** d */ ", " /* / * / */ ", " /*//*/ ", "\n//\n", "\n// c /* not a block\n", " /* \n * x\n **/ "}
 			eols := []string{" ", "\n\n", " // end\n", "\t\n /* x */\n"}
 			for i, sp := range seps {
 				if err := emit(fmt.Sprintf("sep%d", i), "", sp, "\n", false); err != nil {
